@@ -148,6 +148,30 @@ pub fn judge(lit: &str, binary: bool, input: &[u8], spec: &Spec) -> (bool, Optio
     }
 }
 
+/// Partial consumption of the streaming API (see subjects::AagMixed): first deviation, if any.
+pub fn partial_sections(format: &str, lit: &str, input: &[u8]) -> Option<(u8, String)> {
+    use crate::subjects::{make, mixed_expected, mixed_limits, MIXED_MODES};
+    let full = mc_core::generic::run_spec(make(&format!("{format}-stream"), lit).as_ref(), input, &Spec::oneshot());
+    if !matches!(full.end, mc_core::subject::End::Clean) {
+        return None;
+    }
+    for mode in 0..MIXED_MODES {
+        if format == "aig" && (mode == 0 || mode == 10) {
+            continue; // the binary format has no input section
+        }
+        let ex = mc_core::generic::run_spec(make(&format!("{format}-mixed{mode}"), lit).as_ref(), input, &Spec::oneshot());
+        let want = mixed_expected(&full.items, &mixed_limits(mode));
+        if !matches!(ex.end, mc_core::subject::End::Clean) {
+            return Some((mode, format!("the complete stream ends cleanly, the partial consumption ends with {}", ex.end.short())));
+        }
+        if ex.items != want {
+            let i = ex.items.iter().zip(want.iter()).position(|(a, b)| a != b).unwrap_or(ex.items.len().min(want.len()));
+            return Some((mode, format!("item #{i} is {:?}, the complete stream hands out {:?} for the same entry", ex.items.get(i), want.get(i))));
+        }
+    }
+    None
+}
+
 pub fn run(tier: Tier, report: &mut Report, family_docs: &dyn Fn(&str) -> Vec<Doc>) {
     let lits: Vec<&str> = { let _ = tier; crate::subjects::LITS.to_vec() };
     for format in ["aag", "aig"] {
@@ -173,6 +197,16 @@ pub fn run(tier: Tier, report: &mut Report, family_docs: &dyn Fn(&str) -> Vec<Do
                         if accepted {
                             acc.nontrivial += 1;
                             acc.count("accepted", 1);
+                            // the staged streaming API with PARTIAL consumption of the sections
+                            // (skipped, or left after one entry): what it hands out must be what the
+                            // complete stream hands out for the same entries
+                            if matches!(spec.grain, mc_core::source::Grain::OneShot) {
+                                if let Some((mode, why)) = partial_sections(format, lit, input) {
+                                    let key = format!("{format}/accepted-meaning/partial-sections");
+                                    acc.violation_with(&key, input.len() as u64, || (format!("{format} streaming parser <{lit}> on {:?}, consumption mode {mode}: {why}", show(input)), json!({"property": "C06", "format": format, "lit": lit, "input_hex": hex(input), "input": show(input), "spec": spec.to_json(), "partial_mode": mode})));
+                                }
+                                acc.count("partial_consumption_runs", crate::subjects::MIXED_MODES as u64);
+                            }
                         } else {
                             acc.count("rejected", 1);
                             if refparse::parse(input, binary, &max_code_of(lit)).is_ok() {
